@@ -1072,8 +1072,10 @@ class ChunkParser:
                 context = f"<{context}>"
                 self.parent.w_flags.append(flag)
                 self.parent.w_flag_lines.append((flag, context))
-                # Start next search from the end of this context string.
-                start_pos = j
+                # Start next search from the end of the last match covered by
+                # this context string. (Not from the end of the context string
+                # itself, or a match straddling that point would be lost.)
+                start_pos = final_end_mo.end()
 
 
 def rebuild_sec_within(
